@@ -1263,3 +1263,207 @@ func E6DashPeriod(c *core.Ctx, r *core.Report) {
 	r.Count("E6.dash-period-sums", n)
 	r.Floor("E6.dash-period-sums", 1)
 }
+
+// E6JoinerSupport: which stroke joiners a back-end writes natively, evaluated over the finite set of joiner kinds.
+func E6JoinerSupport(c *core.Ctx, r *core.Report) {
+	r.Rule("E6.joiner-support", "SVG, PDF and PostScript can only express a bevel join, a round join and a miter join that falls back to a bevel beyond its limit (SVG additionally the `arcs` join with a finite limit); every other joiner — a miter with an infinite (NaN) limit, a miter whose gap joiner is nil (clip) or anything but Bevel, an arcs join in PDF/PS or with NaN limit — must take the explicit outline fallback, because the rasterizer draws exactly what the joiner says. The statements of RenderPath that compute the `unsupported` flag from style.StrokeJoiner are evaluated for each of the eight joiner kinds (type assertions and IsNaN decided per kind) and compared with this table")
+	type kind struct {
+		name     string
+		typ      string // BevelJoiner | RoundJoiner | MiterJoiner | ArcsJoiner
+		nanLimit bool
+		gap      string // "", "BevelJoiner", "RoundJoiner"
+	}
+	kinds := []kind{
+		{"bevel", "BevelJoiner", false, ""},
+		{"round", "RoundJoiner", false, ""},
+		{"miter, finite limit, bevel gap", "MiterJoiner", false, "BevelJoiner"},
+		{"miter, finite limit, nil gap (clip)", "MiterJoiner", false, ""},
+		{"miter, finite limit, round gap", "MiterJoiner", false, "RoundJoiner"},
+		{"miter, NaN limit", "MiterJoiner", true, "BevelJoiner"},
+		{"arcs, finite limit", "ArcsJoiner", false, "BevelJoiner"},
+		{"arcs, NaN limit", "ArcsJoiner", true, "BevelJoiner"},
+	}
+	want := func(be string, k kind) bool { // unsupported?
+		switch k.typ {
+		case "BevelJoiner", "RoundJoiner":
+			return false
+		case "MiterJoiner":
+			return k.nanLimit || k.gap != "BevelJoiner"
+		case "ArcsJoiner":
+			if be == "renderers/svg" {
+				return k.nanLimit
+			}
+			return true
+		}
+		return true
+	}
+	n := 0
+	for _, b := range backends {
+		if b.rel == "renderers/rasterizer" {
+			continue
+		}
+		p := c.MustPkg(b.rel)
+		info := p.TypesInfo
+		fd := core.MustFuncDecl(p, b.recv+".RenderPath")
+		// the flag: a bool local declared `:= false` that is later read in a condition
+		var flag types.Object
+		var declIdx int
+		for i, st := range fd.Body.List {
+			if as, ok := st.(*ast.AssignStmt); ok && as.Tok == token.DEFINE && len(as.Lhs) == 1 && len(as.Rhs) == 1 {
+				if id, ok := as.Rhs[0].(*ast.Ident); ok && id.Name == "false" && flag == nil {
+					// followed by an if that type-asserts StrokeJoiner
+					if i+1 < len(fd.Body.List) {
+						if is, ok := fd.Body.List[i+1].(*ast.IfStmt); ok && initMentions(is, "StrokeJoiner") {
+							flag = core.ObjOf(info, as.Lhs[0].(*ast.Ident))
+							declIdx = i
+						}
+					}
+				}
+			}
+		}
+		if flag == nil {
+			r.Fail("E6.joiner-support", b.rel+"."+b.recv+".RenderPath|flag", c.Pos(fd.Pos()), "the statements that decide whether the stroke can be written natively were not found")
+			continue
+		}
+		chain := fd.Body.List[declIdx+1].(*ast.IfStmt)
+		for _, k := range kinds {
+			n++
+			key := fmt.Sprintf("%s.%s.RenderPath|%s", b.rel, b.recv, k.name)
+			// evaluate
+			bound := map[types.Object]string{} // variable -> "joiner" | "gap"
+			val := false
+			undecided := ""
+			var evalCond func(e ast.Expr, okObj types.Object, okVal bool) int
+			evalCond = func(e ast.Expr, okObj types.Object, okVal bool) int {
+				e = core.Unparen(e)
+				switch x := e.(type) {
+				case *ast.Ident:
+					if core.ObjOf(info, x) == okObj {
+						if okVal {
+							return 1
+						}
+						return 0
+					}
+				case *ast.UnaryExpr:
+					if x.Op == token.NOT {
+						if v := evalCond(x.X, okObj, okVal); v >= 0 {
+							return 1 - v
+						}
+					}
+				case *ast.BinaryExpr:
+					a, bb := evalCond(x.X, okObj, okVal), evalCond(x.Y, okObj, okVal)
+					switch x.Op {
+					case token.LAND:
+						if a == 0 || bb == 0 {
+							return 0
+						}
+						if a == 1 && bb == 1 {
+							return 1
+						}
+					case token.LOR:
+						if a == 1 || bb == 1 {
+							return 1
+						}
+						if a == 0 && bb == 0 {
+							return 0
+						}
+					case token.EQL, token.NEQ:
+						// miter.GapJoiner == nil
+						if sel, ok := core.Unparen(x.X).(*ast.SelectorExpr); ok && sel.Sel.Name == "GapJoiner" {
+							if id, ok := core.Unparen(x.Y).(*ast.Ident); ok && id.Name == "nil" {
+								isNil := k.gap == ""
+								if (x.Op == token.EQL) == isNil {
+									return 1
+								}
+								return 0
+							}
+						}
+					}
+				case *ast.CallExpr:
+					if name, call := core.MathFunc(info, x); name == "IsNaN" && len(call.Args) == 1 {
+						if sel, ok := core.Unparen(call.Args[0]).(*ast.SelectorExpr); ok && sel.Sel.Name == "Limit" {
+							if k.nanLimit {
+								return 1
+							}
+							return 0
+						}
+					}
+				}
+				return -1
+			}
+			var run func(st ast.Stmt)
+			run = func(st ast.Stmt) {
+				switch x := st.(type) {
+				case *ast.BlockStmt:
+					for _, s := range x.List {
+						run(s)
+					}
+				case *ast.AssignStmt:
+					if len(x.Lhs) == 1 && len(x.Rhs) == 1 {
+						if id, ok := x.Lhs[0].(*ast.Ident); ok && core.ObjOf(info, id) == flag {
+							if rid, ok := x.Rhs[0].(*ast.Ident); ok {
+								val = rid.Name == "true"
+							}
+						}
+					}
+				case *ast.IfStmt:
+					var okObj types.Object
+					okVal := false
+					if as, ok := x.Init.(*ast.AssignStmt); ok && len(as.Lhs) == 2 && len(as.Rhs) == 1 {
+						if ta, ok := core.Unparen(as.Rhs[0]).(*ast.TypeAssertExpr); ok && ta.Type != nil {
+							tn := ""
+							if nt, ok := info.TypeOf(ta.Type).(*types.Named); ok {
+								tn = nt.Obj().Name()
+							}
+							src := types.ExprString(ta.X)
+							switch {
+							case strings.HasSuffix(src, "StrokeJoiner"):
+								okVal = tn == k.typ
+							case strings.HasSuffix(src, "GapJoiner"):
+								okVal = tn == k.gap
+							default:
+								undecided = "type assertion on " + src
+							}
+							if id, ok := as.Lhs[1].(*ast.Ident); ok {
+								okObj = core.ObjOf(info, id)
+							}
+							if id, ok := as.Lhs[0].(*ast.Ident); ok && id.Name != "_" {
+								bound[core.ObjOf(info, id)] = src
+							}
+						}
+					}
+					switch evalCond(x.Cond, okObj, okVal) {
+					case 1:
+						run(x.Body)
+					case 0:
+						if x.Else != nil {
+							run(x.Else)
+						}
+					default:
+						undecided = "condition `" + types.ExprString(x.Cond) + "`"
+					}
+				}
+			}
+			run(chain)
+			w := want(b.rel, k)
+			switch {
+			case undecided != "":
+				r.Fail("E6.joiner-support", key, c.Pos(chain.Pos()), "cannot be evaluated: "+undecided)
+			case val != w:
+				r.Fail("E6.joiner-support", key, c.Pos(chain.Pos()), fmt.Sprintf("for a %s join the back-end decides unsupported=%v, the format's capabilities give unsupported=%v: the stroke is %s", k.name, val, w, map[bool]string{true: "written natively although the format joins differently from the rasterizer", false: "converted to an outline although the format can express it"}[!val]))
+			default:
+				r.OK("E6.joiner-support", key, c.Pos(chain.Pos()), fmt.Sprintf("unsupported=%v", val))
+			}
+		}
+	}
+	r.Count("E6.joiner-kinds-evaluated", n)
+	r.Floor("E6.joiner-kinds-evaluated", 24)
+}
+
+func initMentions(is *ast.IfStmt, name string) bool {
+	as, ok := is.Init.(*ast.AssignStmt)
+	if !ok || len(as.Rhs) != 1 {
+		return false
+	}
+	return strings.Contains(types.ExprString(as.Rhs[0]), name)
+}
